@@ -3,6 +3,8 @@
 #include "psc/types/type_definitions.h"
 #include "psc/types/types.h"
 #include "psc/scope/block.h"
+#include "psc/error.h"
+#include "psc/builtinFunctions/functions.h"
 
 using namespace PSC;
 
@@ -103,7 +105,14 @@ Composite::Composite(const Composite &other)
 
 void Composite::operator=(const Composite &other) {
     if (definitionName != other.definitionName) std::abort();
+    // two definitions of one type name (a TYPE in a procedure hiding a global one) are different types
+    if (!hasSameLayout(other))
+        throw PSC::RuntimeError(PSC::errToken, *ctx, "Records of type '" + definitionName + "' with different definitions cannot be assigned");
     ctx->copyVariableData(*other.ctx);
+}
+
+bool Composite::hasSameLayout(const Composite &other) const {
+    return ctx->hasSameLayout(*other.ctx);
 }
 
 DataHolder *Composite::getMember(const std::string &name) {
